@@ -543,7 +543,9 @@ static void op_file(sqfs_file_t *f, int argc, char **argv)
 		size_t n = strtoul(argv[2], 0, 0); unsigned char *b = __real_calloc(1, n + 1); char hb[128];
 		int r = f->read_at(f, strtoull(argv[1], 0, 0), b, n);
 		put_bytes(hb, sizeof(hb), b, r ? 0 : n); out("read %d %s", r, hb); free(b);
-	} else if (argc >= 1 && !strcmp(argv[0], "size")) out("size %llu %s", (unsigned long long)f->get_size(f), strrchr(f->get_filename(f), '/') ? strrchr(f->get_filename(f), '/') + 1 : f->get_filename(f));
+	} else if (argc >= 1 && !strcmp(argv[0], "size")) out("size %llu %s", (unsigned long long)f->get_size(f),
+			/* (the writable twins have names of their own) */
+			E.kind == K_WFILE ? "-" : strrchr(f->get_filename(f), '/') ? strrchr(f->get_filename(f), '/') + 1 : f->get_filename(f));
 	else out("bad-op");
 }
 
